@@ -27,7 +27,7 @@ class World(object):
 
     def __init__(self, dendropy, case, strip_keep=None):
         self.ns, self.taxa = build.make_namespace(dendropy, case["nleaves"] + case.get("extra", 0),
-                                                  holes=tuple(case.get("holes", ())))
+                                                  holes=tuple(case.get("holes", ())), labels=case.get("labels") or None)
         self.tree = build.build_tree(dendropy, case["nested"], self.ns, self.taxa, rooted=ROOTED[case["rooted"]])
         self.codes = proj.TaxonCodes(self.ns)
         if strip_keep is not None:
@@ -241,6 +241,21 @@ def run_case(case):
 
 
 # ---------------------------------------------------------------------------------------------- cases
+def shared_labels(ntaxa, keep, nleaves, variant):
+    """Taxon labels in which two taxa of the tree carry the same label (variant 0) or labels that differ
+    only in case (variant 1; the namespace is case-insensitive by default).  The pair is taken from the
+    same side (both kept or both dropped), so naming taxa by label names the same leaves as naming the
+    Taxon objects.  None if no such pair exists."""
+    ks = sorted(keep)
+    ds = [i for i in range(nleaves) if i not in set(keep)]
+    pair = ks[:2] if len(ks) >= 2 else (ds[:2] if len(ds) >= 2 else None)
+    if pair is None:
+        return None
+    labels = ["T%d" % (i + 1) for i in range(ntaxa)]
+    labels[pair[0]], labels[pair[1]] = (("x", "x"), ("Dup", "dUP"))[variant]
+    return labels
+
+
 def read_dump(path):
     """tlaval.read_dump, after writing TLC's interval sets a..b out as {a, ..., b}"""
     with open(path) as f:
@@ -276,6 +291,9 @@ def model_cases(ctx, states):
                       "rooted": (1, 1, 0, 1, 1, -1, 1)[(k // 2) % 7],
                       "holes": [0] if (k // 2) % 5 == 1 else [], "extra": 1 if (k // 2) % 5 == 2 else 0,
                       "parts": parts, "one_combo": True})
+        if (k // 2) % 3 == 0:
+            c = cases[-1]
+            c["labels"] = shared_labels(nl + c["extra"], c["keep"], nl, (k // 6) % 2) or []
         k += 1
     return cases
 
@@ -306,6 +324,9 @@ def random_cases(ctx, n):
         cases.append({"kind": "random", "seed": ctx.seed * 7919 + 500000 + k, "nleaves": nl, "nested": nested, "keep": keep,
                       "sup": rng.random() < 0.6, "rooted": rng.choice((1, 1, 0, -1)), "holes": holes,
                       "extra": rng.choice((0, 0, 1, 2)), "parts": ALL_PARTS, "max_subtrees": 4, "max_tops": 4})
+        if rng.random() < 0.4:
+            c = cases[-1]
+            c["labels"] = shared_labels(nl + c["extra"], keep, nl, rng.randrange(2)) or []
     return cases
 
 
@@ -360,7 +381,7 @@ def run(ctx):
     ctx.extra["exhaustive_domain"] = ("ordered trees %s (polytomies, unifurcations, unifurcating seeds) with the mixed None/0/positive edge length "
                                       "pattern x every non-empty subset of their taxa x suppress on/off (%d inputs); the model runs additionally "
                                       "cover %s length patterns" % (bound, nmodel, "2" if ctx.quick else "4"))
-    ctx.assumptions.append("domain of the property as driven: taxa on leaves only, each taxon on at most one leaf, labels matched in their exact case, "
+    ctx.assumptions.append("domain of the property as driven: taxa on leaves only, each taxon on at most one leaf, labels given in their exact case and naming the same leaves as the Taxon objects (taxa sharing a label, or labels differing only in case, lie on the same side of the cut), "
                            "prune_subtree only at nodes whose parent keeps another child, update_bipartitions=True only on rooted trees "
                            "(on unrooted trees encode_bipartitions collapses the basal bifurcation by design), recursive=True")
 
